@@ -400,6 +400,80 @@ theorem applyChangeSet_congr {a b a' : Manifest} (cs : ChangeSet) (h : a.Equiv b
       simp only [hb1]
       exact ih he1 ha
 
+/-- Same table map; the counters are compared only when `cn` is set (after a reopen the
+    in-memory manifest is a clone whose counters restart from the number of tables). -/
+def Manifest.EquivC (cn : Bool) (a b : Manifest) : Prop :=
+  (∀ id, a.lookup id = b.lookup id) ∧ (cn = true → a.creations = b.creations ∧ a.deletions = b.deletions)
+
+theorem Manifest.Equiv.toC {a b : Manifest} (h : a.Equiv b) (cn : Bool) : a.EquivC cn b :=
+  ⟨h.1, fun _ => h.2⟩
+
+theorem Manifest.EquivC.symm {cn : Bool} {a b : Manifest} (h : a.EquivC cn b) : b.EquivC cn a :=
+  ⟨fun id => (h.1 id).symm, fun hc => ⟨(h.2 hc).1.symm, (h.2 hc).2.symm⟩⟩
+
+theorem Manifest.EquivC.trans {cn : Bool} {a b c : Manifest} (h1 : a.EquivC cn b) (h2 : b.EquivC cn c) :
+    a.EquivC cn c :=
+  ⟨fun id => (h1.1 id).trans (h2.1 id), fun hc => ⟨(h1.2 hc).1.trans (h2.2 hc).1, (h1.2 hc).2.trans (h2.2 hc).2⟩⟩
+
+theorem Manifest.EquivC.weaken {cn : Bool} {a b : Manifest} (h : a.EquivC cn b) : a.EquivC false b :=
+  ⟨h.1, fun hc => by cases hc⟩
+
+theorem applyChange_congrC {a b a' : Manifest} (c : Change) (cn : Bool) (h : a.EquivC cn b)
+    (ha : applyChange a c = .ok a') : ∃ b', applyChange b c = .ok b' ∧ a'.EquivC cn b' := by
+  unfold applyChange at ha ⊢
+  have hl := h.1 c.id
+  rw [← hl]
+  by_cases h0 : c.op = 0
+  · simp only [h0, if_true] at ha ⊢
+    cases hla : a.lookup c.id with
+    | some tm => simp [hla] at ha
+    | none =>
+      simp only [hla] at ha ⊢
+      refine ⟨_, rfl, ?_⟩
+      cases ha
+      refine ⟨?_, fun hc => ⟨by simp [(h.2 hc).1], by simp [(h.2 hc).2]⟩⟩
+      intro id
+      simp only [Manifest.lookup, lookup_cons']
+      by_cases hid : id = c.id
+      · simp [hid]
+      · simp only [hid, if_false]; exact h.1 id
+  · by_cases h1 : c.op = 1
+    · simp only [h1, if_true] at ha ⊢
+      cases hla : a.lookup c.id with
+      | none =>
+        simp only [hla] at ha ⊢
+        refine ⟨_, rfl, ?_⟩
+        cases ha
+        exact ⟨fun id => h.1 id, fun hc => ⟨by simp [(h.2 hc).1], by simp [(h.2 hc).2]⟩⟩
+      | some tm =>
+        simp only [hla] at ha ⊢
+        refine ⟨_, rfl, ?_⟩
+        cases ha
+        refine ⟨?_, fun hc => ⟨by simp [(h.2 hc).1], by simp [(h.2 hc).2]⟩⟩
+        intro id
+        simp only [Manifest.lookup, lookup_filter_ne]
+        by_cases hid : id = c.id
+        · simp [hid]
+        · simp only [hid, if_false]; exact h.1 id
+    · simp [h0, h1] at ha
+
+theorem applyChangeSet_congrC {a b a' : Manifest} (cs : ChangeSet) (cn : Bool) (h : a.EquivC cn b)
+    (ha : applyChangeSet a cs = (a', none)) : ∃ b', applyChangeSet b cs = (b', none) ∧ a'.EquivC cn b' := by
+  induction cs generalizing a b with
+  | nil =>
+    simp only [applyChangeSet] at ha ⊢
+    cases ha
+    exact ⟨b, rfl, h⟩
+  | cons c cs ih =>
+    simp only [applyChangeSet] at ha ⊢
+    cases hc : applyChange a c with
+    | error e => simp [hc] at ha
+    | ok a1 =>
+      obtain ⟨b1, hb1, he1⟩ := applyChange_congrC c cn h hc
+      simp only [hc] at ha
+      simp only [hb1]
+      exact ih he1 ha
+
 theorem applyChange_WF {a a' : Manifest} (c : Change) (hr : c.InRange) (hw : a.WF)
     (ha : applyChange a c = .ok a') : a'.WF := by
   unfold applyChange at ha
@@ -727,5 +801,28 @@ theorem levels_eq_of_lookup_eq {a b : Manifest} (ha : a.LevelsOK) (hb : b.Levels
     (h : ∀ id, a.lookup id = b.lookup id) (l id : Nat) :
     id ∈ levelAt a.levels l ↔ id ∈ levelAt b.levels l := by
   rw [ha l id, hb l id, h id]
+
+/-! ## the file descriptor -/
+
+theorem writeAt_end (file b : Bytes) : writeAt file file.length b = file ++ b := by
+  unfold writeAt
+  simp
+
+/-- A torn tail: fewer than 8 bytes, or a frame header whose length passes the sanity check and
+    whose payload is incomplete. Exactly the situations in which the replay loop stops. -/
+def TornTail (fsize : Nat) (t : Bytes) : Prop :=
+  t.length < 8 ∨ (beNat (t.take 4) ≤ fsize % 2 ^ 32 ∧ t.length - 8 < beNat (t.take 4))
+
+theorem replayRest_torn (cd : Codec) (fsize : Nat) (t : Bytes) (off : Nat) (b : Manifest)
+    (ht : TornTail fsize t) : replayRest cd fsize t off b = .ok (b, off) := by
+  rcases ht with h | ⟨h1, h2⟩
+  · exact replayRest_short cd fsize t off b h
+  · by_cases h8 : t.length < 8
+    · exact replayRest_short cd fsize t off b h8
+    · unfold replayRest
+      obtain ⟨n, hn⟩ : ∃ n, t.length = n + 1 := ⟨t.length - 1, by omega⟩
+      rw [hn]
+      simp only [replayLoop]
+      rw [if_neg h8, if_neg (by omega), if_pos (by simp only [List.length_drop]; omega)]
 
 end Badger
